@@ -237,15 +237,21 @@ class Scheduler:
 class SchedLock:
     """Scheduler-aware replacement of the hub's threading.Lock."""
 
-    def __init__(self, sched: Scheduler):
+    def __init__(self, sched: Scheduler, reentrant: bool = False):
         self.s = sched
         self.owner: Optional[str] = None
-        self.real = threading.Lock()
+        # mirrors the kind of lock the hub was built with: a thread that takes a plain Lock twice waits for itself
+        self.reentrant = reentrant
+        self.depth = 0
+        self.real = threading.RLock() if reentrant else threading.Lock()
 
     def acquire(self, blocking: bool = True, timeout: float = -1) -> bool:
         me = self.s._me()
         if me is None:
             return self.real.acquire(blocking, timeout)
+        if self.reentrant and self.owner == me:
+            self.depth += 1
+            return True
         while self.owner is not None:
             self.s.blocked_on[me] = self
             others = self.s.runnable(exclude=me)
@@ -259,13 +265,19 @@ class SchedLock:
             self.s._handover(me, nxt)
             self.s.blocked_on.pop(me, None)
         self.owner = me
+        self.depth = 1
         return True
 
     def release(self) -> None:
         me = self.s._me()
         if me is None:
-            if self.real.locked():
+            try:
                 self.real.release()
+            except RuntimeError:
+                pass
+            return
+        self.depth -= 1
+        if self.depth > 0:
             return
         self.owner = None
         for n, l in list(self.s.blocked_on.items()):
@@ -323,7 +335,7 @@ def install(sched: Scheduler) -> None:
     hubmod.timer = sched.vtime
     bc.timer = sched.vtimer_tick
     hubmod.reset_socket_hub()
-    hubmod._socket_hub._lock = SchedLock(sched)
+    hubmod._socket_hub._lock = SchedLock(sched, reentrant=not isinstance(hubmod._socket_hub._lock, type(threading.Lock())))
 
 
 def uninstall() -> None:
